@@ -3,6 +3,7 @@ package main
 import (
 	"fmt"
 	"go/token"
+	"go/types"
 	"strings"
 
 	"golang.org/x/tools/go/ssa"
@@ -409,7 +410,7 @@ func ruleC05R1(r *Run) {
 	}
 	var recStores, errStores []*ssa.Store
 	for _, fa := range p.fieldAccesses("shrinker") {
-		if fa.Fn != fn || fa.Kind != "write" {
+		if !p.within(fa.Fn, fn) || fa.Kind != "write" {
 			continue
 		}
 		switch fa.Field {
@@ -676,6 +677,31 @@ func ruleC05R3(r *Run) {
 			}
 		}
 		r.Check("panicToError#frames", pe.Pos(), okFmt, "each frame is recorded as file:line in function", "panicToError no longer records file:line per frame: distinct failure sites can get equal tracebacks")
+		// the frame walk ends only at the stop frame or when the frames are exhausted: every frame inside the property is kept
+		for _, l := range loopsOf(pe) {
+			for b := range l.Body {
+				iff, isIf := b.Instrs[len(b.Instrs)-1].(*ssa.If)
+				for si, succ := range b.Succs {
+					if l.Body[succ] {
+						continue
+					}
+					okExit := false
+					desc := "unconditional exit"
+					if isIf {
+						rl := p.relOf(guard{Cond: iff.Cond, Pol: si == 0})
+						desc = rl.String()
+						if strings.Contains(rl.X, "strings.HasSuffix(") || strings.Contains(rl.X, "more") || strings.Contains(rl.X, "(*runtime.Frames).Next") {
+							okExit = true
+						}
+					}
+					r.Check("panicToError#walk-exit", b.Instrs[len(b.Instrs)-1].Pos(), okExit, "the frame walk is left on "+desc, "the frame walk of panicToError can also be left on "+desc+": frames inside the property are cut from the traceback, so two failure sites that differ only in the cut frames compare equal and minimisation can move to a different failure")
+				}
+			}
+		}
+		if c, ok := p.Types.Scope().Lookup("tracebackLen").(*types.Const); ok {
+			n, _ := constantInt(c)
+			r.Check("tracebackLen", c.Pos(), n >= 32, fmt.Sprintf("up to %d frames are captured", n), fmt.Sprintf("only %d frames are captured (tracebackLen): failure sites deeper than that are indistinguishable", n))
+		}
 		// traceback stored into the error
 		for _, ret := range returnsOf(pe) {
 			if isNilConst(p.resolve(p.res(ret, 0))) {
@@ -729,7 +755,7 @@ func ruleC05R4(r *Run) {
 		if fa.Field != "rec" && fa.Field != "err" {
 			continue
 		}
-		name := p.fnName(fa.Fn)
+		name := p.hostName(fa.Fn)
 		switch fa.Kind {
 		case "write":
 			n++
